@@ -27,9 +27,35 @@ FILL_NS = [0, 1, 3, 4, 5, 7, 8, 9, 12, 13, 16, 17, 24]
 def load(repo):
     xo = Crate(repo, "rand_xoshiro", XO_FILES)
     xs = Crate(repo, "rand_xorshift", ["lib.rs"])
-    for c in (xo, xs):
+    jt = Crate(repo, "rand_jitter", ["lib.rs"])
+    for c in (xo, xs, jt):
         c.seed_lens = SEED_LENS
-    return {"rand_xoshiro": xo, "rand_xorshift": xs}
+    return {"rand_xoshiro": xo, "rand_xorshift": xs, "rand_jitter": jt}
+
+JITTER_FNS = [("JitterRng", "stir_pool"), ("JitterLfsr", "lfsr"), ("EcState", "stuck")]
+
+def run_jitter(crate, unit, fn):
+    it = Interp(crate, symbolic=True)
+    if unit == "JitterRng":
+        d = z3.BitVec("data", 64)
+        obj = Obj("JitterRng", {"data": I(d, "u64"), "rounds": lit(64, "u8"), "mem_prev_index": lit(0, "u16"), "data_half_used": False})
+        it.call_method(obj, "stir_pool", [])
+        return flat(obj.f["data"]) + [it.panic], [("data", d)]
+    if unit == "JitterLfsr":
+        import extract_units
+        outer = crate.units["JitterRng"]["methods"]["lfsr_time"]
+        nf = extract_units.nested_fn(outer, "lfsr", crate.macros)
+        d, t = z3.BitVec("data", 64), z3.BitVec("time", 64)
+        env = [{"data": I(d, "u64"), "time": I(t, "u64")}]
+        frame = dict(self=None, unit="JitterRng", ret="u64", checked=True)
+        r = it.run_body(it.body(("nested", "lfsr"), nf, crate.macros), env, frame)
+        return flat(r) + [it.panic], [("data", d), ("time", t)]
+    if unit == "EcState":
+        p, a, b, c = z3.BitVec("prev_time", 64), z3.BitVec("last_delta", 32), z3.BitVec("last_delta2", 32), z3.BitVec("current_delta", 32)
+        obj = Obj("EcState", {"prev_time": I(p, "u64"), "last_delta": I(a, "i32"), "last_delta2": I(b, "i32")})
+        r = it.call_method(obj, "stuck", [I(c, "i32")])
+        return flat(r) + flat(obj) + [it.panic], [("prev_time", p), ("last_delta", a), ("last_delta2", b), ("current_delta", c)]
+    raise Unsupported("jitter unit")
 
 def sym_state(it, crate, unit, prefix="s"):
     """an object of `unit` whose integer fields are fresh symbolic variables; returns (obj, [(name, var)])"""
@@ -72,17 +98,22 @@ def flat(v):
     raise Unsupported(f"result of type {type(v)}")
 
 def run_fn(crate, unit, fn, mode):
-    """returns (outputs as z3 terms, input variables)"""
+    """returns (outputs as z3 terms incl. the panic flag, input variables)"""
+    outs, vars_, it = run_fn_(crate, unit, fn, mode)
+    return outs + [it.panic], vars_
+
+def run_fn_(crate, unit, fn, mode):
     it = Interp(crate, symbolic=True)
+    it.wrapping_units = {u for u, d in crate.units.items() if any("Wrapping" in "".join(t[1] for t in tt) or "".join(t[1] for t in tt).startswith("w<") for _, tt in d["fields"])}
     if fn in ("next_u32", "next_u64", "jump", "long_jump") or fn.startswith("fill_bytes"):
         obj, vars_ = sym_state(it, crate, unit)
         if fn.startswith("fill_bytes"):
             n = int(fn.split(":")[1])
             buf = [lit(0xA5, "u8") for _ in range(n)]
             it.call_method(obj, "fill_bytes", [buf])
-            return flat(buf) + flat(obj), vars_
+            return flat(buf) + flat(obj), vars_, it
         r = it.call_method(obj, fn, [])
-        return flat(r) + flat(obj), vars_
+        return flat(r) + flat(obj), vars_, it
     if fn == "from_seed":
         n = SEED_LENS[unit]
         bs = [z3.BitVec(f"seed_{i}", 8) for i in range(n)]
@@ -94,14 +125,15 @@ def run_fn(crate, unit, fn, mode):
         if "Seed512" in pty:
             arg = Obj("Seed512", {"0": seed})
         r = it.call_assoc(unit, "from_seed", [arg])
-        return flat(r), [(f"seed[{i}]", b) for i, b in enumerate(bs)]
+        return flat(r), [(f"seed[{i}]", b) for i, b in enumerate(bs)], it
     if fn == "seed_from_u64":
         x = z3.BitVec("x", 64)
         r = it.call_assoc(unit, "seed_from_u64", [I(x, "u64")])
-        return flat(r), [("x", x)]
+        return flat(r), [("x", x)], it
     raise Unsupported(f"no driver for {fn}")
 
-def compare(cur, pin, unit, fn, timeout_ms):
+def compare(cur, pin, unit, fn, timeout_ms, runner=None):
+    run_fn = runner or globals()["run_fn"]
     try:
         o1, v1 = run_fn(cur, unit, fn, "sym")
     except Unsupported as e:
@@ -153,6 +185,7 @@ def main():
     pinned = PINNED
     only = None
     timeout_ms = 20000
+    budget_s = 600
     a = sys.argv[2:]
     while a:
         if a[0] == "--pinned":
@@ -161,6 +194,8 @@ def main():
             only = set(a[1].split(",")); a = a[2:]
         elif a[0] == "--timeout":
             timeout_ms = int(a[1]); a = a[2:]
+        elif a[0] == "--budget":
+            budget_s = int(a[1]); a = a[2:]
         else:
             a = a[1:]
     t0 = time.time()
@@ -171,8 +206,11 @@ def main():
             if unit not in pin[cname].units or not pin[cname].units[unit]["methods"]:
                 continue
             fns = ["next_u32", "next_u64", "from_seed", "seed_from_u64", "jump", "long_jump"] + [f"fill_bytes:{n}" for n in FILL_NS]
+            found = False
             for fn in fns:
                 base = fn.split(":")[0]
+                if found or time.time() - t0 > budget_s:
+                    continue
                 if base not in pin[cname].units[unit]["methods"]:
                     continue
                 if only and f"{unit}.{base}" not in only and unit not in only:
@@ -183,9 +221,23 @@ def main():
                 r = compare(cur[cname], pin[cname], unit, fn, timeout_ms)
                 r.update(unit=unit, fn=fn)
                 if r["status"] == "different":
+                    found = True
                     r["replay"] = image_of(r["input"], unit, base)
                     r["input"] = {k: f"{v[0]:#x}" for k, v in r["input"].items()}
                 results.append(r)
+    for unit, fn in JITTER_FNS:
+        if only and f"{unit}.{fn}" not in only and unit not in only:
+            continue
+        r = compare(cur["rand_jitter"], pin["rand_jitter"], unit, fn, timeout_ms, runner=lambda c, u, f, m: run_jitter(c, u, f))
+        r.update(unit=unit, fn=fn)
+        if r["status"] == "different":
+            inp = r["input"]
+            if unit == "JitterRng":
+                r["replay"] = dict(kind="stir", hex=f"{inp['data'][0]:016x}")
+            elif unit == "JitterLfsr":
+                r["replay"] = dict(kind="lfsr", hex=f"{inp['data'][0]:016x}", time=f"{inp['time'][0]:x}")
+            r["input"] = {k: f"{v[0]:#x}" for k, v in inp.items()}
+        results.append(r)
     json.dump(dict(results=results, seconds=round(time.time() - t0, 1)), sys.stdout)
 
 if __name__ == "__main__":
